@@ -4,6 +4,7 @@ import sys
 
 pid = sys.argv[1]
 work = sys.argv[2]
+avoid = sys.argv[3] if len(sys.argv) > 3 else ''
 props = {json.loads(line)['id']: json.loads(line) for line in open('/verif/properties.jsonl', encoding='utf-8')}
 p = props[pid]
 print(f"""You are testing how well a Python code base protects one of its semantic properties. You get your own git worktree of
@@ -25,6 +26,7 @@ operations, an unusual input or configuration, or two cooperating sites that eac
 ordinary use or any existing test would expose at once. Think like a plausible regression a maintainer could introduce
 (an off-by-one on a rare path, a cache key that misses a component, a lost update, a swapped argument that only matters
 for asymmetric shapes, a check moved after the side effect, ...). Prefer subtle over blunt.
+{('A previous, independent attempt already did this: ' + avoid + ' - choose a DIFFERENT clause of the property and a different mechanism / code location.') if avoid else ''}
 
 Steps:
 1. Read the relevant code and the existing tests under {work}/tests for the files you plan to touch.
